@@ -394,6 +394,160 @@ def r17_7(ctx, fs):
     ctx.floor(rid, n, 4, "half-modulus comparisons in smod_2exp_*")
 
 
+def r17_8(ctx):
+    from pplv import flow
+    from rules.c14 import units_alloc
+    rid = "R17.8"
+    ctx.rule(rid, "a work object restarts from its template in every iteration: where a loop body resets a local declared outside the loop from a loop-invariant template (`refinement_itv = integer_quadrant_itv`) and also modifies it in place (non-const member call, or passed by non-const reference), the reset comes before every other use of the object in the body — otherwise an iteration that skips the reset works on what the previous iteration left (Box::wrap_assign would intersect a variable with the guard of another one). Judged on the whole library")
+    fx = ctx.extract(units_alloc())
+    seen = set()
+    n = 0
+    for f in fx.functions:
+        if (f.relfile, f.line) in seen or not f.cfg:
+            continue
+        seen.add((f.relfile, f.line))
+        for lp in f.walk():
+            if lp["k"] not in ("for", "while", "do"):
+                continue
+            body = f.deref(lp["c"][-1])
+            if body is None:
+                continue
+            declared_in = set(v.get("n") for v in f.walk(lp) if v["k"] == "var")
+            written = set(declared_in)
+            for a2 in f.walk(lp):
+                if a2["k"] == "assign" or (a2["k"] == "ocall" and a2.get("op") in ("=", "+=", "-=", "*=", "/=")):
+                    l2 = f.deref(a2["c"][-2]) if len(a2.get("c", ())) >= 2 else None
+                    if l2 is not None and l2["k"] == "ref":
+                        written.add(l2.get("n"))
+            full = {}
+            for a in f.walk(body):
+                if (a["k"] == "assign" and a.get("op", "=") == "=") or (a["k"] == "ocall" and a.get("op") == "="):
+                    l = f.deref(a["c"][-2]) if len(a.get("c", ())) >= 2 else None
+                    r = f.deref(a["c"][-1]) if a.get("c") else None
+                    if l is None or r is None or l["k"] != "ref" or l.get("dk") != "local" or l.get("n") in declared_in:
+                        continue
+                    full.setdefault(l["n"], []).append((a, r))
+            for w, assigns in sorted(full.items()):
+                # every reset copies a loop-invariant local / parameter
+                if not all(r["k"] == "ref" and r.get("dk") in ("local", "param") and r.get("n") not in (written - set([w])) and r.get("n") != w for a, r in assigns):
+                    continue
+                inplace = False
+                for c in f.walk(body):
+                    if c["k"] == "mcall" and not c.get("cconst") and f.call_obj(c) is not None:
+                        o = f.deref(f.call_obj(c))
+                        if o is not None and o["k"] == "ref" and o.get("n") == w:
+                            inplace = True
+                    if c["k"] in ("call", "mcall") and c.get("pm"):
+                        for i_, a_ in enumerate(f.call_args(c)):
+                            a_ = f.deref(a_)
+                            if a_ is not None and a_["k"] == "ref" and a_.get("n") == w and i_ < len(c["pm"]) and c["pm"][i_] == "r":
+                                inplace = True
+                if not inplace:
+                    continue
+                lhs_ids = set(f.deref(a["c"][-2])["i"] for a, r in assigns)
+                uses = [x for x in f.walk(body) if x["k"] == "ref" and x.get("n") == w and x["i"] not in lhs_ids]
+                stmts = [f.deref(c) for c in body.get("c", ())] if body["k"] == "block" else [body]
+                stmts = [s_ for s_ in stmts if s_ is not None]
+                pos = f.cfg_pos(stmts[0]) if stmts else None
+                if not uses or pos is None:
+                    continue
+                n += 1
+                inst = "%s::%s `%s` restarted from `%s` in the loop at line %s" % (f.clsn or "", f.name, w, f.text(assigns[0][1]), lp.get("l"))
+                aset = set(a["i"] for a, r in assigns)
+                ex = flow.Explorer(f, track_env=False)
+                bad = None
+                for u in uses:
+                    p = ex.find_path((pos[0], pos[1] - 1), lambda nod: nod["i"] in aset, lambda nod, u=u: nod["i"] == u["i"])
+                    if p is not None:
+                        bad = (u, p)
+                        break
+                if bad is None:
+                    ctx.ok(rid, inst, f.where(lp))
+                else:
+                    ctx.violation(rid, inst, f.where(bad[0]), "`%s` is used at line %s on a path of the loop body that has not reset it (%s): it still holds what an earlier iteration made of it" % (w, bad[0].get("l"), flow.render_path(f, bad[1])))
+    ctx.floor(rid, n, 1, "work objects restarted from a template inside a loop")
+
+
+def r17_9(ctx):
+    from pplv import flow
+    from rules.c14 import units_alloc
+    rid = "R17.9"
+    ctx.rule(rid, "an exact division by a gcd stays within the range the gcd was taken over: `g = e.gcd(1, n)` is the gcd of the homogeneous coefficients only, so nothing says that g divides the inhomogeneous term. A later exact division by g — `le /= g` on a whole Linear_Expression, or exact_div_assign(g, a, b) — either names the same range, or is reached only after the inhomogeneous term was removed from the expression (`le -= inhomogeneous`, set_inhomogeneous_term(0)); dividing the constant term exactly by a number that does not divide it gives an arbitrary integer (contains_integer_point answered true for {2x > 1, x < 1})")
+    fx = ctx.extract(units_alloc())
+    seen = set()
+    n = 0
+    for f in fx.functions:
+        if (f.relfile, f.line) in seen or not f.cfg:
+            continue
+        seen.add((f.relfile, f.line))
+        gcds = {}
+        for a in f.walk():
+            rhs = lhs = None
+            if a["k"] == "assign" or (a["k"] == "ocall" and a.get("op") == "="):
+                if len(a.get("c", ())) >= 2:
+                    lhs, rhs = f.deref(a["c"][-2]), f.deref(a["c"][-1])
+            elif a["k"] == "var" and a.get("c"):
+                lhs, rhs = a, f.deref(a["c"][-1])
+            if lhs is None or rhs is None:
+                continue
+            call = None
+            for x in f.walk(rhs):
+                if x["k"] == "mcall" and f.call_name(x).lstrip("~") == "gcd" and len(f.call_args(x)) == 2:
+                    call = x
+            if call is None:
+                continue
+            name = lhs.get("n")
+            if not name:
+                continue
+            rng = tuple(f.text(f.deref(x)).replace(" ", "") for x in f.call_args(call))
+            gcds[name] = rng
+        if not gcds:
+            continue
+        for x in f.walk():
+            use = None
+            if x["k"] == "ocall" and x.get("op") == "/=" and len(x.get("c", ())) >= 2:
+                r = f.deref(x["c"][-1])
+                l = f.deref(x["c"][-2])
+                if r is not None and r["k"] == "ref" and r.get("n") in gcds and l is not None and "Linear_Expression" in (l.get("t") or ""):
+                    use = (r["n"], None, f.text(l).strip())
+            if x["k"] == "mcall" and f.call_name(x).lstrip("~") == "exact_div_assign":
+                args = f.call_args(x)
+                a0 = f.deref(args[0]) if args else None
+                if a0 is not None and a0["k"] == "ref" and a0.get("n") in gcds:
+                    use = (a0["n"], tuple(f.text(f.deref(y)).replace(" ", "") for y in args[1:3]) if len(args) >= 3 else None, f.text(f.deref(f.call_obj(x))).strip() if f.call_obj(x) is not None else "")
+            if use is None:
+                continue
+            g, rng, target = use
+            n += 1
+            inst = "%s: `%s` divided by `%s` = gcd(%s) (line %s)" % (f.name, target, g, ", ".join(gcds[g]), x.get("l"))
+            if gcds[g][0] == "0":
+                ctx.ok(rid, inst, f.where(x))        # the gcd covers the inhomogeneous term too
+                continue
+            if rng is not None and rng == gcds[g]:
+                ctx.ok(rid, inst, f.where(x))
+                continue
+            if rng is None:
+                base = target.split(".")[0]
+
+                def removes(nod):
+                    if nod["k"] == "ocall" and nod.get("op") == "-=" and len(nod.get("c", ())) >= 2:
+                        l_, r_ = f.deref(nod["c"][-2]), f.deref(nod["c"][-1])
+                        return l_ is not None and f.text(l_).strip() == base and r_ is not None and "inhomogeneous" in f.text(r_)
+                    if nod["k"] == "mcall" and f.call_name(nod).lstrip("~") == "set_inhomogeneous_term" and f.call_obj(nod) is not None and f.text(f.deref(f.call_obj(nod))).strip() == base:
+                        a_ = f.call_args(nod)
+                        return bool(a_) and f.text(f.deref(a_[0])).strip() in ("0", "Coefficient_zero()")
+                    return False
+                # from the definition of the expression to the division, the constant term must have been removed
+                bad = flow.must_precede(f, x, removes)
+                if bad is None:
+                    ctx.ok(rid, inst, f.where(x))
+                    continue
+                ctx.violation(rid, inst, f.where(x), "the whole expression, constant term included, is divided exactly by the gcd of the coefficients in [%s) only, and the constant term was not removed first (%s)" % (", ".join(gcds[g]), flow.render_path(f, bad)))
+            else:
+                ctx.violation(rid, inst, f.where(x), "the division covers [%s) but the gcd was taken over [%s)" % (", ".join(rng), ", ".join(gcds[g])))
+    ctx.floor(rid, n, 2, "exact divisions by a range gcd")
+
+
 def run(ctx):
     ctx.explanation = ("C17 structural clauses of the generic wrap_assign and two comparison-strictness clauses of the interval version: quadrant indices are floors, every wrapped dimension is handled on every path, "
                        "full-range and overflow-impossible bounds are complete, quadrant loops cover first..last inclusive with the right translation; "
@@ -426,3 +580,5 @@ def run(ctx):
     if len(sm) < 5:
         raise F.AnalysisBroken("C17: smod_2exp_* siblings: found %d, expected at least 5" % len(sm))
     r17_7(ctx, [sm[k] for k in sorted(sm)])
+    r17_8(ctx)
+    r17_9(ctx)
